@@ -28,14 +28,16 @@ ASSUMPTIONS = ["exception classes are compared by subclass relation (e.g. IndexE
                "assigned values of another dtype are small non-negative integers so the cast is defined",
                "a result that is a memmap or based on one is reported without touching its memory"]
 EXHAUSTIVE = None
-MUST_HIT = ['mode:r/ctx:r+', 'mode:r+/ctx:r+', 'iter:close', 'iter:drop', 'iter:exhaust', 'idx:npint', 'idx:mask', 'idx:fullmask', 'idx:intarr', 'idx:none', 'idx:ell', 'idx:int-out-of-range', 'failed-write', 'failed-read',
+MUST_HIT = ['mode:r/ctx:r+', 'mode:r+/ctx:r+', 'mode:r/ctx:None', 'mode:r+/ctx:r', 'ctx:nested-mixed-modes', 'ctx:live-iterator', 'write:readonly', 'setmode', 'idx:pybool', 'iter:close', 'iter:drop', 'iter:exhaust', 'idx:npint', 'idx:mask', 'idx:fullmask', 'idx:intarr', 'idx:none', 'idx:ell', 'idx:int-out-of-range', 'failed-write', 'failed-read',
             'empty-array', 'ctx:none', 'ctx:open', 'ctx:nested', 'write:otherdt', 'write:row', 'idx:badtype', 'idx:too-many',
             'write:mask']
 
 
 @st.composite
 def st_comp(draw, n):
-    k = draw(st.sampled_from(['int', 'int', 'slice', 'slice', 'ell', 'full', 'none', 'intarr', 'mask', 'badtype']))
+    k = draw(st.sampled_from(['int', 'int', 'slice', 'slice', 'ell', 'full', 'none', 'intarr', 'mask', 'badtype', 'pybool']))
+    if k == 'pybool':        # a Python bool is a 0-d boolean mask for NumPy, not the integer 0/1
+        return {'t': 'pybool', 'v': draw(st.booleans())}
     if k == 'int':
         return {'t': draw(st.sampled_from(['int', 'int', 'npint'])), 'v': draw(st.integers(-n - 2, n + 1))}
     if k == 'slice':
@@ -91,15 +93,24 @@ def st_case(draw):
         if w == 'set':
             a['val'] = {'k': draw(st.sampled_from(['scalar', 'row', 'otherdt', 'full', 'wrongshape', 'unconv'])), 's': draw(st.integers(0, 2 ** 31))}
         acc.append(a)
-    ctxm = draw(st.sampled_from(['none', 'open', 'nested']))
-    # 'r+' handle with default contexts, or a read-only handle whose (documented) per-block override makes writes legal
-    mode, cmode = draw(st.sampled_from([('r+', None), ('r+', None), ('r+', 'r+'), ('r', 'r+')]))
-    if ctxm == 'none' and mode == 'r':
-        mode = 'r+'
-    if draw(st.booleans()):
-        acc.insert(draw(st.integers(0, len(acc))), {'k': 'iterclose', 'how': draw(st.sampled_from(['close', 'drop', 'exhaust']))})
-    return {'dt': draw(gens.st_dt()), 'shape': shape, 'seed': draw(st.integers(0, 2 ** 31)), 'acc': acc,
-            'ctx': ctxm, 'mode': mode, 'cmode': cmode}
+    mode = draw(st.sampled_from(['r+', 'r+', 'r']))
+    # control operations woven into the accesses: contexts and live iterators entered with any access mode (nested in any
+    # combination), left again, and access-mode assignments between them
+    ops, depth = [], 0
+    for a_ in acc:
+        c = draw(st.sampled_from(['', '', '', 'enter', 'enter', 'exit', 'setmode', 'iterclose']))
+        if c == 'enter' and depth < 3:
+            ops.append({'k': 'enter', 'via': draw(st.sampled_from(['ctx', 'ctx', 'iter'])), 'mode': draw(st.sampled_from([None, None, 'r', 'r+']))})
+            depth += 1
+        elif c == 'exit' and depth:
+            ops.append({'k': 'exit', 'how': draw(st.sampled_from(['close', 'close', 'drop', 'exhaust']))})
+            depth -= 1
+        elif c == 'setmode' and depth == 0:
+            ops.append({'k': 'setmode', 'm': draw(st.sampled_from(['r', 'r+']))})
+        elif c == 'iterclose':
+            ops.append({'k': 'iterclose', 'how': draw(st.sampled_from(['close', 'drop', 'exhaust']))})
+        ops.append(a_)
+    return {'dt': draw(gens.st_dt()), 'shape': shape, 'seed': draw(st.integers(0, 2 ** 31)), 'ops': ops, 'mode': mode}
 
 
 def build_idx(ix, shape):
@@ -109,6 +120,8 @@ def build_idx(ix, shape):
         return rng.random(shp) < 0.5
     if ix['t'] == 'tuple':
         return tuple(build_idx(i, shape) for i in ix['v'])
+    if ix['t'] == 'pybool':
+        return bool(ix['v'])
     return gens.build_index(ix)
 
 
@@ -156,12 +169,28 @@ def same_exc(e1, e2):
     return issubclass(type(e1), type(e2)) or issubclass(type(e2), type(e1))
 
 
+def normalise(spec):
+    """Older case files ({'acc', 'ctx', 'cmode'}) are rewritten as an op list with explicit enter / exit operations."""
+    if 'ops' in spec:
+        return spec
+    acc, cm = list(spec['acc']), spec.get('cmode')
+    if spec['ctx'] == 'open':
+        ops = [{'k': 'enter', 'via': 'ctx', 'mode': cm}] + acc + [{'k': 'exit', 'how': 'close'}]
+    elif spec['ctx'] == 'nested':
+        half = len(acc) // 2
+        ops = [{'k': 'enter', 'via': 'ctx', 'mode': cm}, {'k': 'enter', 'via': 'ctx', 'mode': None}] + acc[:half] + \
+              [{'k': 'exit', 'how': 'close'}] + acc[half:] + [{'k': 'exit', 'how': 'close'}]
+    else:
+        ops = acc
+    return {'dt': spec['dt'], 'shape': spec['shape'], 'seed': spec['seed'], 'ops': ops, 'mode': spec['mode']}
+
+
 def execute(ctx, spec):
     import darr
     out = Outcome()
     dt = dt_of(spec['dt'])
     shape = tuple(spec['shape'])
-    out.cls('ctx:' + spec['ctx'], f"mode:{spec['mode']}/ctx:{spec.get('cmode')}")
+    spec = normalise(spec)
     if shape[0] == 0:
         out.cls('empty-array')
     nontriv = False
@@ -273,12 +302,25 @@ def execute(ctx, spec):
                     gexc = None
                 except Exception as e:
                     gexc = e
+                modes = {e_[2] for e_ in stack if e_[0] != 'failed'} or {hmode[0]}
+                if modes != {'r+'} and wexc is None:
+                    # the map in use (or the handle) is read-only: the write must be refused; with read-only and read-write
+                    # openers nested in one another what should happen is not stated anywhere: refusal and NumPy's effect both pass
+                    out.cls('write:readonly' if modes == {'r'} else 'write:mixed-modes')
+                    if gexc is not None:
+                        if open(datafile, 'rb').read() != before:
+                            out.viol('failed-write-changed-file', f'set:refused:{where}', f'index {acc["idx"]} value {vk}')
+                            return False
+                        return True
+                    if modes == {'r'}:
+                        out.viol('readonly-write-did-not-raise', f'set:{where}', f'handle mode {hmode[0]}, open modes {sorted(modes)}: a[idx] = v succeeded')
+                        return False
                 if wexc is not None:
                     out.cls('failed-write')
                     if gexc is None:
                         out.viol('write-no-raise', f'set:{type(wexc).__name__}', f'index {acc["idx"]} value {vk}: NumPy raises {type(wexc).__name__}: {wexc}')
                         return False
-                    if not same_exc(gexc, wexc):
+                    if not same_exc(gexc, wexc) and modes == {'r+'}:     # (a read-only map may refuse before NumPy looks at the index)
                         out.viol('write-wrong-exception', f'set:{type(wexc).__name__}', f'NumPy {type(wexc).__name__}, Darr {type(gexc).__name__}: {gexc}')
                         return False
                     if open(datafile, 'rb').read() != before:
@@ -304,27 +346,83 @@ def execute(ctx, spec):
                 return False
             return True
 
+        stack = []           # live openers, innermost last: (kind, object, effective mode) or ('failed',)
+        hmode = [spec['mode']]
+
+        def leave(how='close'):
+            e_ = stack.pop()
+            if e_[0] == 'ctx':
+                e_[1].__exit__(None, None, None)
+            elif e_[0] == 'iter':
+                if how == 'exhaust':
+                    for _ in e_[1]:
+                        pass
+                elif how == 'drop':
+                    e_ = None
+                    import gc
+                    gc.collect()
+                else:
+                    e_[1].close()
+            e_ = None
+            if not any(x[0] != 'failed' for x in stack):
+                return not leaks('after-exit')
+            return True
+
+        def enter(op):
+            req = op.get('mode')
+            eff = req or hmode[0]
+            live = [x for x in stack if x[0] != 'failed']
+            out.cls(f"mode:{hmode[0]}/ctx:{req}", 'ctx:nested' if live else 'ctx:open')
+            if live and any(x[2] != eff for x in live):
+                out.cls('ctx:nested-mixed-modes')
+            try:
+                if op.get('via') == 'iter':
+                    if shape[0] == 0:
+                        stack.append(('failed',))
+                        return True
+                    out.cls('ctx:live-iterator')
+                    it = a.iterchunks(chunklen=1, accessmode=req)
+                    first = next(it)
+                    if first.tobytes() != ref[0:1].tobytes():
+                        out.viol('read-mismatch', 'iterchunks', 'first chunk differs')
+                        return False
+                    stack.append(('iter', it, eff))
+                else:
+                    cm = a.open_array(accessmode=req)
+                    cm.__enter__()
+                    stack.append(('ctx', cm, eff))
+            except Exception as e:
+                if all(x[2] == eff for x in live):
+                    out.viol('context-raised', f'enter:{op.get("via")}:{type(e).__name__}', f'{type(e).__name__}: {e}')
+                    return False
+                stack.append(('failed',))     # a refused request for another mode than the one already open is tolerated
+            return True
+
         try:
-            if spec['ctx'] == 'none':
-                for acc in spec['acc']:
-                    if not one(acc, False):
-                        break
-            elif spec['ctx'] == 'open':
-                with a.open_array(accessmode=spec.get('cmode')):
-                    for acc in spec['acc']:
-                        if not one(acc, True):
-                            break
-            else:
-                half = len(spec['acc']) // 2
-                ok = True
-                with a.open_array(accessmode=spec.get('cmode')):
-                    with a.open_array():
-                        for acc in spec['acc'][:half]:
-                            ok = ok and one(acc, True)
-                    for acc in spec['acc'][half:]:
-                        ok = ok and one(acc, True)
+            if not any(o_['k'] == 'enter' for o_ in spec['ops']):
+                out.cls('ctx:none')
+            ok = True
+            for acc in spec['ops']:
+                k = acc['k']
+                if k == 'enter':
+                    ok = enter(acc)
+                elif k == 'exit':
+                    ok = leave(acc.get('how', 'close')) if stack else True
+                elif k == 'setmode':
+                    if not any(x[0] != 'failed' for x in stack):
+                        a.accessmode = acc['m']
+                        hmode[0] = acc['m']
+                        out.cls('setmode')
+                else:
+                    ok = one(acc, any(x[0] != 'failed' for x in stack))
+                if not ok:
+                    break
+            while stack:
+                if not leave('close'):
+                    break
         except Exception as e:
-            out.viol('context-raised', f'ctx:{spec["ctx"]}:{type(e).__name__}', f'{type(e).__name__}: {e}')
+            out.viol('context-raised', f'driver:{type(e).__name__}', f'{type(e).__name__}: {e}')
+            stack.clear()
         if not out.violations:
             leaks('end')
         if not out.violations and results:
@@ -344,8 +442,23 @@ def fixed_specs():
     comps = [{'t': 'int', 'v': -1}, {'t': 'int', 'v': 9}, {'t': 'npint', 'v': 1}, {'t': 'slice', 'v': [None, None, -1]}, {'t': 'slice', 'v': [5, 1, None]},
              {'t': 'ell'}, {'t': 'none'}, {'t': 'intarr', 'v': [0, 0, -1]}, {'t': 'intlist', 'v': [1, 7]}, {'t': 'mask', 'v': [True, False, True]},
              {'t': 'mask', 'v': [True, False]}, {'t': 'str', 'v': 'a'}, {'t': 'float', 'v': 1.0}, {'t': 'dict'},
-             {'t': 'fullmask', 's': 3, 'wrong': False}, {'t': 'fullmask', 's': 3, 'wrong': True}]
-    for shape in ([3], [3, 2], [0, 2], [3, 1, 2], [3, 2, 2, 2]):
+             {'t': 'fullmask', 's': 3, 'wrong': False}, {'t': 'fullmask', 's': 3, 'wrong': True}, {'t': 'pybool', 'v': True}, {'t': 'pybool', 'v': False}]
+    # mode / context combinations with fixed accesses: a refused write on a read-only handle followed by a write inside an explicit
+    # read-write block; reads inside read-only blocks and under read-only iterators; a read-write request nested in a read-only block
+    W = {'k': 'set', 'idx': {'t': 'int', 'v': 0}, 'val': {'k': 'scalar', 's': 9}}
+    R = [{'k': 'get', 'idx': {'t': 'slice', 'v': [None, None, None]}}, {'k': 'get', 'idx': {'t': 'slice', 'v': [0, 2, None]}},
+         {'k': 'get', 'idx': {'t': 'tuple', 'v': [{'t': 'ell'}]}}, {'k': 'get', 'idx': {'t': 'intarr', 'v': [0]}}]
+    X = {'k': 'exit', 'how': 'close'}
+    for shape in ([3], [1, 2], [0, 2], [4, 2, 2]):
+        for t, bo in (('int32', '<'), ('float32', '>')):
+            base = {'dt': {'t': t, 'bo': bo}, 'shape': shape, 'seed': 12}
+            for via in ('ctx', 'iter'):
+                yield dict(base, mode='r', ops=[W, {'k': 'enter', 'via': via, 'mode': 'r+'}, W] + R + [X, W])
+                yield dict(base, mode='r', ops=[{'k': 'enter', 'via': via, 'mode': None}] + R + [W, X] + R)
+                yield dict(base, mode='r+', ops=[{'k': 'enter', 'via': via, 'mode': 'r'}] + R + [{'k': 'enter', 'via': 'ctx', 'mode': 'r+'}, W, X, X, W] + R)
+                yield dict(base, mode='r+', ops=[{'k': 'enter', 'via': via, 'mode': 'r'}, W, X, {'k': 'setmode', 'm': 'r'}, W, {'k': 'setmode', 'm': 'r+'}, W])
+                yield dict(base, mode='r', ops=[{'k': 'enter', 'via': 'ctx', 'mode': 'r'}, {'k': 'enter', 'via': via, 'mode': 'r+'}] + R + [X, X, {'k': 'setmode', 'm': 'r+'}, W])
+    for shape in ([3], [3, 2], [0, 2], [1, 2], [3, 1, 2], [3, 2, 2, 2]):
         for t, bo in (('int16', '>'), ('float64', '<'), ('complex64', '>'), ('uint8', '<')):
             for c in comps:
                 for ctxm in ('none', 'open', 'nested'):
